@@ -42,10 +42,11 @@ for d in sorted(glob.glob(os.path.join(V, 'seeded', 'C*-*'))):
               detected_by=detected_by, failed_obligations=obl[:6])
     json.dump(nm, open(os.path.join(d, 'result.json'), 'w'), indent=1)
     if not det: pass
-    index.append(dict(note=NOTES.get(sid, ''), id=sid, property=sid.split('-')[0], confirmed=confirmed, detected_by=detected_by, undecided=undecided, not_detected=passed))
+    index.append(dict(evaluated=bool(det), note=NOTES.get(sid, ''), id=sid, property=sid.split('-')[0], confirmed=confirmed, detected_by=detected_by, undecided=undecided, not_detected=passed))
     note = NOTES.get(sid, '')
     if not det: continue
     rows.append('| %s | %s | %s | %s | %s | %s |' % (sid, summ, 'yes' if confirmed else 'seeder only', ', '.join(detected_by) or ('UNDECIDED ' + ','.join(undecided) if undecided else 'NOT detected'), '; '.join(obl[:3]), note))
 json.dump(index, open(os.path.join(V, 'seeded', 'INDEX.json'), 'w'), indent=1)
 open(os.path.join(V, 'seeded', 'TABLE.md'), 'w').write('| seeded change | what it does | confirmed (tests pass, demo fails) | detected by check | failing obligations | note |\n|---|---|---|---|---|---|\n' + '\n'.join(rows) + '\n')
-print(len(rows), 'seeds;', sum(1 for x in index if x['detected_by']), 'detected;', sum(1 for x in index if not x['detected_by'] and x['undecided']), 'undecided;', sum(1 for x in index if not x['detected_by'] and not x['undecided']), 'missed')
+ev = [x for x in index if x['evaluated']]
+print(len(index), 'seeds,', len(ev), 'evaluated:', sum(1 for x in ev if x['detected_by']), 'detected;', sum(1 for x in ev if not x['detected_by'] and x['undecided']), 'undecided;', sum(1 for x in ev if not x['detected_by'] and not x['undecided']), 'not detected')
